@@ -382,6 +382,8 @@ class CInterp:
         r = self._sse_builtin(name, a)
         if r is not NotImplemented:
             return r
+        if name == "strlen" and isinstance(a[0], str):
+            return len(a[0])
         if name in ("cbrt", "cbrtf"):
             if not is_sym(a[0]):
                 import math
@@ -1074,6 +1076,10 @@ class CInterp:
         x = self.rv(self.expr(n["inner"][0], env))
         qt = n.get("type", {}).get("qualType", "")
         if isinstance(x, tuple) and x and x[0] == "alloc":
+            pointee = qt.replace("*", "").replace("struct ", "").strip()
+            if pointee in getattr(self, "struct_types", {}):
+                fill = 0 if x[1] == "calloc" else None
+                return StructObj(pointee, **{f: fill for f in self.struct_types[pointee]})
             sort = "real" if ("float" in qt or "double" in qt) else "int"
             nm = core.fresh_name(f"{x[1]}#{x[3]}")
             if x[1] == "calloc":
@@ -1091,13 +1097,38 @@ class CInterp:
     e_CXXFunctionalCastExpr = e_CStyleCastExpr
     e_CXXStaticCastExpr = e_CStyleCastExpr
 
+    def _sizeof_type(self, qt):
+        import re
+        sizes = {"float": 4, "int": 4, "double": 8, "char": 1, "unsigned int": 4, "long": 8, "size_t": 8, "unsigned long": 8, "mybool": 4}
+        sizes.update(getattr(self, "type_sizes", {}))  # typedef'd array types declared by the contract (e.g. rvec = float[3])
+        qt = qt.replace("const ", "").strip()
+        if qt in sizes:
+            return sizes[qt]
+        m = re.match(r"^(\w[\w ]*?)\s*((?:\[\d+\])+)$", qt)
+        if m and m.group(1).strip() in sizes:
+            nel = 1
+            for d in re.findall(r"\[(\d+)\]", m.group(2)):
+                nel *= int(d)
+            return sizes[m.group(1).strip()] * nel
+        if qt in getattr(self, "struct_types", {}):
+            return ("sizeof-struct", qt)  # only meaningful as an allocation size
+        return None
+
     def e_UnaryExprOrTypeTraitExpr(self, n, env):
         if n.get("name") == "sizeof":
             qt = (n.get("argType") or {}).get("qualType", "")
-            sizes = {"float": 4, "int": 4, "double": 8, "char": 1, "unsigned int": 4, "long": 8, "size_t": 8}
-            if qt in sizes:
-                return sizes[qt]
-        raise Unsupported(f"sizeof/alignof of {n.get('argType')}")
+            if not qt and n.get("inner"):
+                t = n["inner"][0].get("type", {})
+                qt = t.get("desugaredQualType") or t.get("qualType", "")
+                while n["inner"][0].get("kind") == "ParenExpr" and not qt:
+                    n = n["inner"][0]
+            r = self._sizeof_type(qt)
+            if r is None and n.get("inner"):
+                t = n["inner"][0].get("type", {})
+                r = self._sizeof_type(t.get("qualType", ""))
+            if r is not None:
+                return r
+        raise Unsupported(f"sizeof/alignof of {n.get('argType') or (n.get('inner') or [{}])[0].get('type')}")
 
     # ---- user-defined records (struct Bridge ...) -----------------------------------------------------------------------
     def copy_value(self, v):
@@ -1188,6 +1219,15 @@ class CInterp:
         if isinstance(base, StdVector):
             i = idx if isinstance(idx, int) else core.current().concrete_int(term(idx))
             return LRef(lambda: base.items[i], lambda v: base.items.__setitem__(i, v))
+        # element type that is itself an array (float (*x)[3], matrix rows): the element has a stride and decays to a pointer
+        t = n.get("type", {})
+        et = (t.get("desugaredQualType") or t.get("qualType", "")).replace("const ", "").strip()
+        et = getattr(self, "type_arrays", {}).get(et, et)
+        import re as _re
+        m = _re.match(r"^\w+\s*\[(\d+)\]$", et)
+        if m and isinstance(base, Ptr) and base.region is not None and base.region.local is None:
+            stride = int(m.group(1))
+            return Ptr(base.region, base.off + idx * stride)
         return self.mem_ref(base, idx)
 
     def e_UnaryOperator(self, n, env):
